@@ -20,6 +20,7 @@ def check(m, run):
     fi = m.func('operations.refine_knotvector')
     from .. import skel_drivers as _sd
     _sd.kir3(m, run, ('refine',))        # A5.4 on exact rational knots and symbolic control points equals the single insertions of its new knots
+    oc.shared_dependencies(m, run)
     oc.block_rules(m, run, fi, 'refine')
     # aliasing inside the row helpers is decided by the exact runs on rows of points (KF3: shared rows change together, and the rows handed
     # in must stay what they were); the rule that reads which stores are deep copies corroborates
